@@ -8,7 +8,8 @@
      wfb false s        s is built so that every TrustIter below announces its true count (front use)
      wfb true s         same, and no node below is an FnMut map or a padded take (not double-ended)
      build src gs       the pipeline interpreter of the random part of the harness                *)
-From Tevec Require Import Base.Prelude Model.Iter Proofs.Iter.
+From Tevec Require Import Base.Prelude Model.Iter Proofs.Iter Model.IterAudit Proofs.Audit09 Proofs.Audit09Collect.
+From Tevec Require Model.Collect Model.Driver.
 
 (* (1) the size hint is exact from any point of a front consumption onwards *)
 Theorem C09_hint_exact_front :
@@ -409,6 +410,259 @@ Example C09_example_step_by :
     /\ next (ISkip s 3) = (Some (VZ 3), ISkip (snd (nth_it 3 s)) 0).
 Proof. eexists. eexists. vm_compute. repeat split; auto. Qed.
 
+(* ==== (YA) AUDIT =========================================================================================
+   notes/C09.md has the clause-by-clause matrix.  Added vocabulary (Model/IterAudit.v, Proofs/Audit09.v):
+     tis_empty, mabs          TrustedLen::is_empty, MapBasic::abs
+     itf, f_next, f_size_hint Filter / FilterMap (own hint (0, upper): inexact) with the padded take, TrustIter and
+                              Box the library puts on top; f_wf / f_trusted: well formed / the top announces exactly
+     vpartition_f, varg_partition_f   the partition arms as the code builds them (over Filter / FilterMap)
+     as_titer, as_try_titer   a state as the collectors of Model/Collect.v see it (len() + the items pulled)       *)
+
+(* (10) statements about EVERY model state, no well-formedness: lower bound = upper bound, so TrustedLen::len()
+        never panics and ExactSizeIterator::len()'s assert_eq never fires; shift / vshift never panic and keep the
+        ANNOUNCED length (also of an input that lies) *)
+Theorem C09_hint_lower_is_upper :
+  forall s : it, snd (size_hint s) = Some (fst (size_hint s)) /\ tlen s = Ok (fst (size_hint s)).
+Proof. intros s. split; [apply hint_lower_is_upper | apply tlen_total]. Qed.
+
+Theorem C09_shift_total :
+  forall (n : Z) (v : val) (w : option val) (s : it),
+    (exists s', shift n v s = Ok s' /\ size_hint s' = size_hint s) /\
+    (exists s', vshift n w s = Ok s' /\ size_hint s' = size_hint s).
+Proof. intros. split; [apply shift_total | apply vshift_total]. Qed.
+
+(* (11) fused behaviour: once an instruction returned None, every later instruction returns None, the hint is
+        (0, Some 0) and plain iteration yields nothing - after any further script *)
+Theorem C09_fused_after_exhaustion :
+  forall (b : bool) (c : instr) (s : it) (cs : list instr) (c' : instr),
+    (instr_back c = true -> b = true) -> (forall x, In x cs -> instr_back x = true -> b = true) ->
+    (instr_back c' = true -> b = true) ->
+    wfb b s -> fst (exec c s) = None ->
+    fst (exec c' (run_script cs (snd (exec c s)))) = None /\
+    size_hint (run_script cs (snd (exec c s))) = (0, Some 0) /\
+    drain (run_script cs (snd (exec c s))) = [].
+Proof. intros b c s cs c' H1 H2 H3 Hw Hn. apply (fused b); assumption. Qed.
+
+(* an exhausted state stays exhausted and well formed under every instruction *)
+Theorem C09_exhausted_stays_exhausted :
+  forall (b : bool) (c : instr) (s : it),
+    (instr_back c = true -> b = true) -> wfb b s -> elems s = [] ->
+    fst (exec c s) = None /\ elems (snd (exec c s)) = [] /\ wfb b (snd (exec c s)).
+Proof. intros b c s H Hw He. apply (exhausted_exec b); assumption. Qed.
+
+(* fold / rfold (hence count, last) leave an exhausted, well-formed state: hint (0, Some 0), every later call None *)
+Theorem C09_fold_leaves_exhausted :
+  forall (A : Type) (back b : bool) (f : A -> val -> A) (acc : A) (s : it),
+    (back = true -> b = true) -> wfb b s ->
+    size_hint (snd (fold_it back f acc s)) = (0, Some 0) /\ wfb b (snd (fold_it back f acc s)) /\
+    (forall c, (instr_back c = true -> b = true) -> fst (exec c (snd (fold_it back f acc s))) = None).
+Proof. intros A back b f acc s Hd Hw. apply (fold_leaves_exhausted back b); assumption. Qed.
+
+(* (12) count / last / fold at EVERY point of a consumption (after every admissible script) *)
+Theorem C09_count_at_every_point :
+  forall (b : bool) (cs : list instr) (s : it),
+    (forall c, In c cs -> instr_back c = true -> b = true) -> wfb b s ->
+    size_hint (run_script cs s) = (fst (count_it (run_script cs s)), Some (fst (count_it (run_script cs s)))) /\
+    fst (count_it (run_script cs s)) = length (fold_left (fun l c => cut c l) cs (elems s)).
+Proof. intros b cs s Hc Hw. apply (count_after_script b); assumption. Qed.
+
+Theorem C09_last_at_every_point :
+  forall (b : bool) (cs : list instr) (s : it),
+    (forall c, In c cs -> instr_back c = true -> b = true) -> wfb b s ->
+    fst (last_it (run_script cs s)) = nth_error (rev (fold_left (fun l c => cut c l) cs (elems s))) 0.
+Proof. intros b cs s Hc Hw. apply (last_after_script b); assumption. Qed.
+
+Theorem C09_fold_at_every_point :
+  forall (A : Type) (back b : bool) (f : A -> val -> A) (acc : A) (cs : list instr) (s : it),
+    (back = true -> b = true) -> (forall c, In c cs -> instr_back c = true -> b = true) -> wfb b s ->
+    fst (fold_it back f acc (run_script cs s))
+    = fold_left f (let l := fold_left (fun l c => cut c l) cs (elems s) in if back then rev l else l) acc.
+Proof. intros A back b f acc cs s Hd Hc Hw. apply (fold_after_script back b); assumption. Qed.
+
+Theorem C09_count_from_the_back :
+  forall s, wfb true s -> fst (fold_it true (fun n (_ : val) => S n) 0 s) = fst (count_it s).
+Proof. exact rcount. Qed.
+
+(* (13) rejected parameters, totally: which inputs an adaptor refuses and how *)
+Theorem C09_rolling_iter_total :
+  forall (w : nat) (xs : list val),
+    (w = 0 -> rolling_custom_iter w xs = Panic Underflow) /\
+    (1 <= w -> exists s', rolling_custom_iter w xs = Ok s' /\ wfb true s' /\ length (elems s') = length xs /\
+                          size_hint s' = (length xs, Some (length xs))).
+Proof. intros w xs. split; [intros ->; apply rolling_custom_iter_window0 | apply rolling_wfb]. Qed.
+
+Theorem C09_vcut_rejects_exactly :
+  forall tmin tmax bins labels right add s,
+    vcut tmin tmax bins labels right add s = None <->
+    (if add then length labels <> length bins + 1 else length labels + 1 <> length bins).
+Proof. exact vcut_rejects. Qed.
+
+Theorem C09_range_int_total :
+  forall a b st : Z,
+    (range_i a b st = Panic OtherPanic <-> range_empty a b st = false /\ st = 0%Z) /\
+    (range_i a b st <> Panic OtherPanic -> range_i a b st = Ok (range_f a b st)).
+Proof. exact range_i_total. Qed.
+
+Theorem C09_range_zero_step :
+  forall a b : Z, elems (range_f a b 0) = [] /\ size_hint (range_f a b 0) = (0, Some 0).
+Proof. exact range_zero_step. Qed.
+
+Theorem C09_step_by_rejects_exactly :
+  forall (n : nat) (s : it), step_by n s = Panic AssertFail <-> n = 0.
+Proof. exact step_by_rejects. Qed.
+
+(* (14) the adaptors on double-ended inputs, and on inputs already consumed from either end *)
+Theorem C09_shift_both_ends :
+  forall (b : bool) (n : Z) (v : val) (s : it), wfb b s ->
+    exists s', shift n v s = Ok s' /\ wfb b s' /\ length (elems s') = length (elems s).
+Proof. intros b n v s Hw. apply shift_wfb. exact Hw. Qed.
+
+Theorem C09_shift_after_any_consumption :
+  forall (n : Z) (v : val) (s : it) (cs : list bool), wfb true s ->
+    exists s', shift n v (consume cs s) = Ok s' /\ wfb true s' /\
+               length (elems s') = length (elems (consume cs s)).
+Proof. intros n v s cs Hw. apply shift_after_consumption. exact Hw. Qed.
+
+Theorem C09_lag_adaptors_both_ends :
+  forall (n : Z) (v : option val) (xs : list val),
+    (exists s', vdiff n v xs = Ok s' /\ wfb true s' /\ length (elems s') = length xs) /\
+    (exists s', vpct_change n xs = Ok s' /\ wfb true s' /\ length (elems s') = length xs).
+Proof. intros. split; [apply vdiff_wfb | apply vpct_change_wfb]. Qed.
+
+Theorem C09_vcut_both_ends :
+  forall b tmin tmax bins labels right add s s', wfb b s ->
+    vcut tmin tmax bins labels right add s = Some s' -> wfb b s' /\ length (elems s') = length (elems s).
+Proof. intros b tmin tmax bins labels right add s s' Hw E. apply (vcut_wfb b tmin tmax bins labels right add s); assumption. Qed.
+
+(* (15) two public functions the model lacked: TrustedLen::is_empty and MapBasic::abs *)
+Theorem C09_is_empty :
+  forall (b : bool) (s : it),
+    tis_empty s = Ok (fst (size_hint s) =? 0) /\
+    (wfb b s -> tis_empty s = Ok (match elems s with [] => true | _ => false end) /\
+                (tis_empty s = Ok true <-> fst (next s) = None)).
+Proof. intros b s. split; [apply tis_empty_total | apply tis_empty_wf]. Qed.
+
+Theorem C09_abs_well_formed :
+  forall (b : bool) (s : it), wfb b s ->
+    wfb b (mabs s) /\ length (elems (mabs s)) = length (elems s) /\ mabs s = vabs s.
+Proof. intros b s Hw. apply mabs_wf. exact Hw. Qed.
+
+(* (16) sources whose OWN hint is inexact.  Filter / FilterMap announce (0, inner count): bounds, not a length ... *)
+Theorem C09_filter_hint_is_only_a_bound :
+  forall (g : val -> option val) (i : it), wfb false i ->
+    f_size_hint (FFilterMap g i) = (0, Some (length (elems i))) /\
+    length (f_elems (FFilterMap g i)) <= length (elems i).
+Proof. exact filter_hint_is_a_bound. Qed.
+
+(* ... yet under the TrustIter / padded take the library puts on top, the law holds at every point of the
+   consumption, provided the declared length is the number of items that pass the filter *)
+Theorem C09_hint_exact_over_inexact_source :
+  forall (k : nat) (t : itf), f_wf t -> f_trusted t ->
+    f_size_hint (f_consume k t) = (length (f_drain (f_consume k t)), Some (length (f_drain (f_consume k t)))).
+Proof. exact f_hint_exact_consume. Qed.
+
+Theorem C09_inexact_source_step :
+  forall (t : itf) (o : option val) (t' : itf), f_wf t -> f_next t = (o, t') ->
+    match o with Some x => f_elems t = x :: f_elems t' | None => f_elems t = [] /\ f_elems t' = [] end /\
+    f_wf t' /\ (f_trusted t -> f_trusted t').
+Proof. exact f_next_sound. Qed.
+
+(* the partitions as the code builds them (filter(not_none) / enumerate().filter_map(..) under to_trust(kth+1)):
+   well formed for ALL kth, sort, inputs; and Model/Iter.v's idealisation `IList (filter ..)` is observationally
+   exact - same hint and same remaining items after any number of next() calls *)
+Theorem C09_partitions_over_filter_well_formed :
+  forall (kth : nat) (sort : bool) (xs : list val),
+    (f_wf (vpartition_f kth sort xs) /\ f_trusted (vpartition_f kth sort xs)) /\
+    (f_wf (varg_partition_f kth sort xs) /\ f_trusted (varg_partition_f kth sort xs)) /\
+    length (f_elems (vpartition_f kth sort xs)) = kth + 1 /\
+    length (f_elems (varg_partition_f kth sort xs)) = kth + 1.
+Proof.
+  intros kth sort xs. split; [apply vpartition_f_wf|]. split; [apply varg_partition_f_wf|].
+  rewrite vpartition_f_elems, varg_partition_f_elems.
+  split; [exact (proj2 (vpartition_wf kth sort xs)) | exact (proj2 (varg_partition_wf kth sort xs))].
+Qed.
+
+Theorem C09_partition_idealisation_exact :
+  forall (k kth : nat) (sort : bool) (xs : list val),
+    (f_size_hint (f_consume k (vpartition_f kth sort xs)) = size_hint (consume (repeat false k) (vpartition kth sort xs)) /\
+     f_drain (f_consume k (vpartition_f kth sort xs)) = drain (consume (repeat false k) (vpartition kth sort xs))) /\
+    (f_size_hint (f_consume k (varg_partition_f kth sort xs))
+     = size_hint (consume (repeat false k) (varg_partition kth sort xs)) /\
+     f_drain (f_consume k (varg_partition_f kth sort xs)) = drain (consume (repeat false k) (varg_partition kth sort xs))).
+Proof. intros. split; [apply vpartition_f_observational | apply varg_partition_f_observational]. Qed.
+
+(* (17) "consequently": EVERY trusted collector of Model/Collect.v (raw Vec / VecDeque / ndarray, the defaults,
+        collect_with_len, the fallible ones, write_trust_iter) on a well-formed state at any point of its consumption *)
+Theorem C09_collect_every_backend :
+  forall (bk : Model.Collect.backend) (b : bool) (cs : list instr) (s : it),
+    (forall c, In c cs -> instr_back c = true -> b = true) -> wfb b s ->
+    Model.Collect.collect_from_trusted bk (as_titer (run_script cs s)) = Model.Driver.Done (drain (run_script cs s)).
+Proof. intros bk b cs s Hc Hw. apply (collect_every_backend bk b); assumption. Qed.
+
+Theorem C09_write_into_buffer :
+  forall (old : list (option val)) (s : it), wfb false s ->
+    fst (Model.Collect.write_trust_iter (length old) (as_titer s))
+    = (if orb (length old =? 0) (orb (length old =? length (elems s)) (length (elems s) =? 1))
+       then Model.Collect.WOk else Model.Collect.WErr) /\
+    (length old = length (elems s) ->
+       let r := Model.Collect.write_trust_iter (length old) (as_titer s) in
+       map fst (snd r) = seq 0 (length old) /\ Model.Collect.apply_writes (snd r) old = map Some (elems s)).
+Proof.
+  intros old s Hw. split; [apply write_status; exact Hw|]. intros Hl.
+  destruct (write_equal_length old s Hw Hl) as (_ & H2 & H3). split; assumption.
+Qed.
+
+Theorem C09_try_collect :
+  forall (bk : Model.Collect.backend) (s : it), wfb false s ->
+    ((forall v, In v (elems s) -> v <> VErr) ->
+       Model.Collect.try_collect_from_trusted bk (as_try_titer s) = Model.Collect.TOk (Model.Driver.Done (elems s))) /\
+    (forall xs rest, elems s = xs ++ VErr :: rest -> (forall v, In v xs -> v <> VErr) ->
+       Model.Collect.try_collect_from_trusted bk (as_try_titer s) = Model.Collect.TErr tt).
+Proof.
+  intros bk s Hw. split; [apply try_collect_no_err; exact Hw|].
+  intros xs rest He Hn. apply (try_collect_first_err bk s xs rest); assumption.
+Qed.
+
+(* (18) winsorize for EVERY input (C09_generators_well_formed states it for two-element inputs only) *)
+Theorem C09_winsorize_well_formed :
+  forall xs : list val, wfb true (winsorize xs) /\ length (elems (winsorize xs)) = length xs.
+Proof. exact winsorize_wf. Qed.
+
+(* ---- non-vacuity for (10)-(17) ------------------------------------------------------------------------- *)
+Example C09_example_audit :
+  (* a lying TrustIter: shift keeps what is announced *)
+  (exists s', shift 1 (VZ 0) (ITrust (IList [VZ 1; VZ 2; VZ 3]) 2) = Ok s' /\ size_hint s' = (2, Some 2))
+  (* fused: vshift(1) of 2 items, nth(5) exhausts it; afterwards next / next_back / nth return None *)
+  /\ (exists s, vshift 1 None (IList [VZ 1; VZ 2]) = Ok s /\ wfb true s /\ fst (exec (INth 5) s) = None
+        /\ fst (exec INext (run_script [INextBack; INth 0] (snd (exec (INth 5) s)))) = None
+        /\ size_hint (run_script [INextBack; INth 0] (snd (exec (INth 5) s))) = (0, Some 0))
+  /\ fst (count_it (run_script [INth 0; INextBack] (IList [VZ 1; VZ 2; VZ 3; VZ 4]))) = 2
+  /\ fst (last_it (run_script [INth 0; INextBack] (IList [VZ 1; VZ 2; VZ 3; VZ 4]))) = Some (VZ 3)
+  /\ vcut 0 9 [1; 5]%Z [VZ 7] true true (IList []) = None
+  /\ (exists s', vcut 0 9 [1; 5]%Z [VZ 7] true false (IList [VZ 3]) = Some s' /\ drain s' = [VZ 7])
+  /\ range_i 5 0 0 = Panic OtherPanic /\ range_i 0 5 0 = Ok (range_f 0 5 0) /\ drain (range_f 0 5 0) = []
+  /\ tis_empty (IList []) = Ok true /\ tis_empty (ITake (IList [VZ 1]) 1) = Ok false
+  /\ drain (mabs (IList [VZ (-2); VNull])) = [VZ 2; VNull]
+  (* Filter alone is inexact: announces (0, Some 3), yields 2 *)
+  /\ f_size_hint (FFilterMap keep_valid (IList [VZ 3; VNull; VZ 1])) = (0, Some 3)
+  /\ f_drain (FFilterMap keep_valid (IList [VZ 3; VNull; VZ 1])) = [VZ 3; VZ 1]
+  (* the partition arms over it: exact at every point *)
+  /\ f_size_hint (f_consume 1 (vpartition_f 1 false [VZ 3; VNull; VZ 1])) = (1, Some 1)
+  /\ f_drain (f_consume 1 (vpartition_f 1 false [VZ 3; VNull; VZ 1])) = [VZ 1]
+  /\ f_drain (vpartition_f 3 false [VZ 3; VNull; VZ 1]) = [VZ 3; VZ 1; VNull; VNull]
+  /\ f_drain (varg_partition_f 3 false [VZ 3; VNull; VZ 1]) = [VZ 0; VZ 2; VZ (-1); VZ (-1)]
+  /\ f_size_hint (f_consume 3 (varg_partition_f 3 false [VZ 3; VNull; VZ 1])) = (1, Some 1)
+  (* a TrustIter over a filter with the WRONG declared length is not well formed and breaks the law *)
+  /\ f_size_hint (FTrust (FFilterMap keep_valid (IList [VZ 3; VNull])) 2) = (2, Some 2)
+  /\ f_drain (FTrust (FFilterMap keep_valid (IList [VZ 3; VNull])) 2) = [VZ 3]
+  (* collectors *)
+  /\ Model.Collect.collect_from_trusted Model.Collect.BRaw (as_titer (run_script [INext] (IList [VZ 1; VZ 2])))
+     = Model.Driver.Done [VZ 2]
+  /\ fst (Model.Collect.write_trust_iter 3 (as_titer (IList [VZ 1; VZ 2]))) = Model.Collect.WErr
+  /\ Model.Collect.try_collect_from_trusted Model.Collect.BRaw (as_try_titer (IList [VZ 1; VErr; VZ 2]))
+     = Model.Collect.TErr tt.
+Proof. vm_compute. repeat split; try (eexists; repeat split; reflexivity). Qed.
+
 Print Assumptions C09_hint_exact_front.
 Print Assumptions C09_hint_exact_both_ends.
 Print Assumptions C09_hint_exact_pipeline.
@@ -446,3 +700,32 @@ Print Assumptions C09_fold_visits_yielded.
 Print Assumptions C09_skip_next_is_nth.
 Print Assumptions C09_step_by_hint_exact.
 Print Assumptions C09_step_by_yields.
+Print Assumptions C09_hint_lower_is_upper.
+Print Assumptions C09_shift_total.
+Print Assumptions C09_fused_after_exhaustion.
+Print Assumptions C09_exhausted_stays_exhausted.
+Print Assumptions C09_fold_leaves_exhausted.
+Print Assumptions C09_count_at_every_point.
+Print Assumptions C09_last_at_every_point.
+Print Assumptions C09_fold_at_every_point.
+Print Assumptions C09_count_from_the_back.
+Print Assumptions C09_rolling_iter_total.
+Print Assumptions C09_vcut_rejects_exactly.
+Print Assumptions C09_range_int_total.
+Print Assumptions C09_range_zero_step.
+Print Assumptions C09_step_by_rejects_exactly.
+Print Assumptions C09_shift_both_ends.
+Print Assumptions C09_shift_after_any_consumption.
+Print Assumptions C09_lag_adaptors_both_ends.
+Print Assumptions C09_vcut_both_ends.
+Print Assumptions C09_is_empty.
+Print Assumptions C09_abs_well_formed.
+Print Assumptions C09_filter_hint_is_only_a_bound.
+Print Assumptions C09_hint_exact_over_inexact_source.
+Print Assumptions C09_inexact_source_step.
+Print Assumptions C09_partitions_over_filter_well_formed.
+Print Assumptions C09_partition_idealisation_exact.
+Print Assumptions C09_collect_every_backend.
+Print Assumptions C09_write_into_buffer.
+Print Assumptions C09_try_collect.
+Print Assumptions C09_winsorize_well_formed.
